@@ -22,6 +22,7 @@ func init() {
 			"loop, the effect and the variable. The cone is also scanned for time/rand/multi-way select. Exceptions are tabled per (function, effect kind) with a reason and, where possible, a verifier. " +
 			"Go randomises map iteration, so any surviving order-sensitive effect makes two nodes compute different validator lists from equal inputs. " +
 			"shuffleNodes writes nothing into memory reachable from a map or list field of its argument (it works on copies). " +
+			"Every distribution step of shuffleNodes is preceded by createListsForAllShards on the working copy. " +
 			"Not decided (value-level): that the hash-based shuffle itself is a function of its inputs' values only (it is pure code without maps; covered by the absence of nondeterminism sources).",
 		Run: runC13,
 	})
